@@ -122,6 +122,8 @@ const (
 	opHelperA          // Fatalf at the first of two sites inside ONE helper function that calls t.Helper()
 	opHelperB          // Fatalf at the second site of the same helper (same caller line)
 	opPanicVal         // panic whose VALUE (and so its message) depends on the last drawn bool, at one site
+	opCleanupFailA     // register a cleanup function that fails (Fatalf) - site A
+	opCleanupFailB     // register another cleanup function that fails (Fatalf) - site B: a different function
 	opCount
 )
 
@@ -136,6 +138,7 @@ const (
 
 type vInv struct {
 	draws    []uint64 // values received, in order
+	topDraws []uint64 // ... by the property body itself (not inside callbacks)
 	drawLog  []string // what the draw log lines of this invocation should say
 	attempts int      // draws started (a draw cut short by invalid data is started but not received)
 	signals  int      // failure signals raised during this invocation (incl. its cleanups and custom fns)
@@ -226,6 +229,15 @@ func (p *vProg) prop(t *T) {
 	p.exec(t, p.ops, inv, false)
 }
 
+// addDraw records a value the invocation received; draws made by the property body itself (not
+// inside a callback, where a rejected attempt may be retried and later pruned) are kept separately.
+func (inv *vInv) addDraw(v uint64, inCallback bool) {
+	inv.draws = append(inv.draws, v)
+	if !inCallback {
+		inv.topDraws = append(inv.topDraws, v)
+	}
+}
+
 func (inv *vInv) allCleanupsDone() bool { return len(inv.cleanRun) == len(inv.cleanIds) }
 
 func (p *vProg) exec(t *T, ops []uint8, inv *vInv, inCallback bool) {
@@ -250,16 +262,16 @@ func (p *vProg) execCB(t *T, ops []uint8, inv *vInv, inCallback bool, inCleanup 
 			b := Bool().Draw(t, "b")
 			lastBit = b
 			if b {
-				inv.draws = append(inv.draws, 1)
+				inv.addDraw(1, inCallback)
 				inv.drawLog = append(inv.drawLog, "[rapid] draw b: true")
 			} else {
-				inv.draws = append(inv.draws, 0)
+				inv.addDraw(0, inCallback)
 				inv.drawLog = append(inv.drawLog, "[rapid] draw b: false")
 			}
 		case opDrawByte:
 			inv.attempts++
 			v := Uint8().Draw(t, "u8")
-			inv.draws = append(inv.draws, uint64(v))
+			inv.addDraw(uint64(v), inCallback)
 		case opDrawDistinct:
 			inv.attempts++
 			sl := SliceOfDistinct(Bool(), ID[bool]).Draw(t, "ds")
@@ -270,7 +282,7 @@ func (p *vProg) execCB(t *T, ops []uint8, inv *vInv, inCallback bool, inCleanup 
 				}
 			}
 			lastBit = len(sl) > 0 && sl[0]
-			inv.draws = append(inv.draws, v)
+			inv.addDraw(v, inCallback)
 			inv.drawLog = append(inv.drawLog, "[rapid] draw ds: "+boolSliceGoString(sl))
 			if symbolic() {
 				// the executor's fmt model does not render %#v of slices the way package fmt does
@@ -280,16 +292,16 @@ func (p *vProg) execCB(t *T, ops []uint8, inv *vInv, inCallback bool, inCleanup 
 			inv.attempts++
 			b := Bool().Filter(func(b bool) bool { return b }).Draw(t, "fb")
 			lastBit = b
-			inv.draws = append(inv.draws, b2u(b))
+			inv.addDraw(b2u(b), inCallback)
 			inv.drawLog = append(inv.drawLog, "[rapid] draw fb: true")
 		case opDrawWord:
 			inv.attempts++
 			w := t.s.drawBits(64)
-			inv.draws = append(inv.draws, w)
+			inv.addDraw(w, inCallback)
 		case opDrawSmall:
 			inv.attempts++
 			v := IntRange(0, 3).Draw(t, "small")
-			inv.draws = append(inv.draws, uint64(v))
+			inv.addDraw(uint64(v), inCallback)
 		case opErrorf:
 			inv.signals++
 			inv.nonFatal++
@@ -297,7 +309,7 @@ func (p *vProg) execCB(t *T, ops []uint8, inv *vInv, inCallback bool, inCleanup 
 		case opDrawRune:
 			inv.attempts++
 			r := RuneFrom([]rune{'a', 'é', '日'}).Draw(t, "r")
-			inv.draws = append(inv.draws, uint64(r))
+			inv.addDraw(uint64(r), inCallback)
 		case opHelperA, opHelperB:
 			inv.signals++
 			inv.fatalAt = 13 + int(op-opHelperA)
@@ -312,6 +324,18 @@ func (p *vProg) execCB(t *T, ops []uint8, inv *vInv, inCallback bool, inCleanup 
 				inv.failMsg = "index out of range [0] with length 0"
 			}
 			panic(inv.failMsg)
+		case opCleanupFailA:
+			t.Cleanup(func() {
+				inv.signals++
+				inv.fatalAt = 16
+				t.Fatalf("verification in cleanup A failed")
+			})
+		case opCleanupFailB:
+			t.Cleanup(func() {
+				inv.signals++
+				inv.fatalAt = 17
+				t.Fatalf("verification in cleanup B failed")
+			})
 		case opErrorEmpty:
 			inv.signals++
 			inv.nonFatal++
@@ -456,7 +480,7 @@ func (p *vProg) execCB(t *T, ops []uint8, inv *vInv, inCallback bool, inCleanup 
 				}
 				return 0
 			}).Draw(t, "custom")
-			inv.draws = append(inv.draws, uint64(v))
+			inv.addDraw(uint64(v), inCallback)
 		}
 	}
 }
